@@ -13,6 +13,11 @@ V = os.path.dirname(os.path.dirname(os.path.abspath(__file__)))
 WT = os.environ.get("WTROOT", "/tmp/wt4")
 EXTRA_AVOID = {
     "C03": ["calculateCalendarAggregationTime", "KSI_CalendarHashChain_calculateAggregationTime"],
+    # functions changed by stored patches whose hunk headers name the function before them (or have no function text after a re-base)
+    "C02": ["KSI_DataHash_equals"],
+    "C06": ["extractGenerator"],
+    "C13": ["asyncClient_calculateRequestId"],
+    "C07": ["KSI_DataHash_equals"],
 }
 
 
